@@ -376,7 +376,17 @@ func handleSMOVE(params internal.HandlerFuncParams) ([]byte, error) {
 
 	destinationSet, ok := sets[destination].(*Set)
 	if !ok {
-		return nil, errors.New("destination is not a set")
+		if keyExists[destination] {
+			return nil, errors.New("destination is not a set")
+		}
+		// The destination does not exist: it is created when there is a member to move.
+		if !sourceSet.Contains(member) {
+			return []byte(":0\r\n"), nil
+		}
+		destinationSet = NewSet([]string{})
+		if err = params.SetValues(params.Context, map[string]interface{}{destination: destinationSet}); err != nil {
+			return nil, err
+		}
 	}
 
 	res := sourceSet.Move(destinationSet, member)
